@@ -16,7 +16,7 @@ CONSTANTS
   HelperNames = {}
   Plan <- NoPlan
   Systems <- Sys_all
-  KTimes <- KT_all
+  KTimes <- KT_two
   KConcs <- KC_all
   Wrongs <- W_none
   CPlans <- Plans_t
